@@ -46,8 +46,95 @@ def _case(draw, tier):
             "no_params": draw(st.sampled_from([False, False, False, True]))}
 
 
+@st.composite
+def _far_case(draw, tier):
+    """Single-precision state and parameters, double-precision time far from the origin, coefficients oscillating in time: the
+    forward coefficients must be evaluated at the time the solver was given, not at that time rounded to the state's dtype."""
+    return {"kind": "far_time_f32", "noise_type": draw(st.sampled_from(["diagonal", "additive", "scalar", "general"])),
+            "t": draw(st.sampled_from([2000.00003, -1500.70007, 812.3000119, 65536.123456, 0.25])),
+            "omega": draw(st.sampled_from([40.0, 25.0, 7.0])), "seed": draw(st.integers(0, 2 ** 31 - 1)),
+            "B": draw(st.integers(1, 3)), "d": draw(st.integers(1, 3)), "grad_enabled": draw(st.booleans())}
+
+
 def strategy(tier):
-    return _case(tier)
+    return st.one_of(_case(tier), _case(tier), _case(tier), _case(tier), _far_case(tier))
+
+
+class OscSDE(torch.nn.Module):
+    """Stratonovich SDE with coefficients oscillating in time (float32 parameters)."""
+
+    def __init__(self, noise_type, d, omega, seed):
+        super().__init__()
+        self.noise_type, self.sde_type, self.omega = noise_type, "stratonovich", omega
+        g = torch.Generator().manual_seed(seed)
+        self.a = torch.nn.Parameter(torch.randn(d, generator=g) * 0.8)
+        self.b = torch.nn.Parameter(torch.randn(d, generator=g) * 0.8)
+        self.c = torch.nn.Parameter(0.5 + torch.rand(d, 2, generator=g))
+        self.m = {"diagonal": d, "scalar": 1}.get(noise_type, 2)
+
+    def f(self, t, y):
+        return self.a * torch.sin(self.omega * t) * torch.tanh(y) + self.b * torch.cos(self.omega * t)
+
+    def g(self, t, y):
+        osc = 1.0 + 0.5 * torch.cos(self.omega * t + 0.4)
+        if self.noise_type == "diagonal":
+            return self.c[:, 0] * osc * (1.0 + 0.3 * torch.sin(y))
+        if self.noise_type == "additive":
+            return (self.c * osc).unsqueeze(0).expand(y.size(0), -1, -1).to(y.dtype)
+        full = (self.c * osc).unsqueeze(0) * (1.0 + 0.3 * torch.sin(y)).unsqueeze(-1)
+        return (full[..., :1] if self.noise_type == "scalar" else full).to(y.dtype)
+
+
+def _run_far(case):
+    from torchsde._core import adjoint_sde, base_sde
+    nt, B, d = case["noise_type"], case["B"], case["d"]
+    sde = OscSDE(nt, d, case["omega"], case["seed"])
+    m = sde.m
+    gen = torch.Generator().manual_seed(case["seed"] + 1)
+    y = torch.randn(B, d, generator=gen)
+    a = torch.randn(B, d, generator=gen)
+    v = torch.randn(B, m, generator=gen)
+    params = list(sde.parameters())
+    shapes = [y.size(), a.size()] + [p.size() for p in params]
+    adj = adjoint_sde.AdjointSDE(base_sde.ForwardSDE(sde), params, shapes)
+    t_fwd = torch.tensor(case["t"], dtype=torch.float64)
+    t_adj = torch.tensor(-case["t"], dtype=torch.float64)
+
+    # oracle in double precision: the same module evaluated in float64 at the exact time
+    sde64 = OscSDE(nt, d, case["omega"], case["seed"]).double()
+    orc = Oracle(sde64, list(sde64.parameters()), t_fwd)
+    y64, a64, v64 = y.double(), a.double(), v.double()
+    want_f = _flat(orc.F(y64, a64))
+    Gv = None
+    for k in range(orc.n_cols(y64)):
+        Gk = orc.G(k, y64, a64)
+        Gk_w = orc.G(k, y64, a64 * v64[:, k:k + 1])
+        contrib = [Gk[0] * v64[:, k:k + 1]] + Gk_w[1:]
+        Gv = contrib if Gv is None else [p + q for p, q in zip(Gv, contrib)]
+    want_g = _flat(Gv)
+    z = _flat([y, a] + [torch.zeros_like(p) for p in params]).unsqueeze(0)
+    ctx = torch.enable_grad() if case["grad_enabled"] else torch.no_grad()
+    with ctx:
+        f_out = adj.f(t_adj, z.clone())
+        g_out = adj.g_prod(t_adj, z.clone(), v.clone())
+        f2, g2 = adj.f_and_g_prod(t_adj, z.clone(), v.clone())
+    sig = {"noise_type": nt, "sde_type": "stratonovich", "kind": "far_time_f32"}
+    checks, worst = 0, 0.0
+    for name, got, want, clause in (("AdjointSDE.f", f_out, want_f, "adjoint_drift"),
+                                    ("AdjointSDE.g_prod", g_out, want_g, "adjoint_diffusion_prod"),
+                                    ("AdjointSDE.f_and_g_prod[f]", f2, want_f, "adjoint_drift"),
+                                    ("AdjointSDE.f_and_g_prod[g_prod]", g2, want_g, "adjoint_diffusion_prod")):
+        checks += 1
+        e = float((got.detach().double().reshape(-1) - want).abs().max()) / max(1.0, float(want.abs().max()))
+        worst = max(worst, e)
+        if not e <= 2e-5:
+            return Result(nontrivial=True, checks=checks, fail=Fail(
+                clause, f"{name} at forward time {case['t']!r} (float64) with a float32 state differs from the prescribed field "
+                        f"evaluated at that time: rel {e:.3e} (float32 rounding is ~1e-7; coefficients oscillate with "
+                        f"omega={case['omega']})", sig))
+    return Result(nontrivial=abs(case["t"]) > 100, labels=["kind=far_time_f32", f"stratonovich/{nt}",
+                                                           "grad_enabled" if case["grad_enabled"] else "no_grad"],
+                  checks=checks, metrics={"relerr/far_time_f32": worst})
 
 
 def enumerate_cases(tier):
@@ -76,6 +163,10 @@ def enumerate_cases(tier):
                            "no_params": flavour == "no_params",
                            "warmup_regime": flavour if flavour in ("constant_diffusion_first",
                                                                    "other_state_same_time_between") else None}
+    for k, nt in enumerate(("diagonal", "additive", "scalar", "general")):
+        for t in (2000.00003, -1500.70007):
+            yield {"kind": "far_time_f32", "noise_type": nt, "t": t, "omega": 40.0, "seed": seed * 31 + k, "B": 2, "d": 2,
+                   "grad_enabled": k % 2 == 0}
 
 
 class Oracle:
@@ -133,6 +224,8 @@ def _flat(parts):
 
 def run_case(case):
     from torchsde._core import adjoint_sde, base_sde
+    if case.get("kind") == "far_time_f32":
+        return _run_far(case)
     spec = case["spec"]
     warm = case.get("warmup_regime")
     if warm == "constant_diffusion_first":
